@@ -11,6 +11,7 @@ ASSUMPTIONS = ["time is only weakly monotone in (beat, tag) order: pauses of len
 
 
 def c1(ctx):
+    timing.queries_are_pure(ctx, ["beat_at"])
     timing.bisect_rule(ctx, "beat_at", "_tagged_times")
     timing.bisect_census(ctx)
 
